@@ -17,15 +17,34 @@ type Locker interface {
 type Mutex struct {
 	locked bool
 	hb     vrt.SyncVar
+	ep     int64
+}
+
+// fresh reports (once per execution) that the object carries state of an
+// earlier execution, which the caller then drops.
+func fresh(ep *int64) bool {
+	if e := vrt.Epoch(); *ep != e {
+		*ep = e
+		return true
+	}
+	return false
+}
+
+func (m *Mutex) reset() {
+	if fresh(&m.ep) {
+		m.locked, m.hb = false, vrt.SyncVar{}
+	}
 }
 
 func (m *Mutex) Lock() {
+	m.reset()
 	vrt.Block("Mutex.Lock", uintptr(unsafe.Pointer(m)), func() bool { return !m.locked })
 	m.locked = true
 	vrt.Acquire(&m.hb)
 }
 
 func (m *Mutex) TryLock() bool {
+	m.reset()
 	vrt.PointOp("Mutex.TryLock", uintptr(unsafe.Pointer(m)))
 	if m.locked {
 		return false
@@ -36,6 +55,7 @@ func (m *Mutex) TryLock() bool {
 }
 
 func (m *Mutex) Unlock() {
+	m.reset()
 	vrt.PointOp("Mutex.Unlock", uintptr(unsafe.Pointer(m)))
 	if !m.locked {
 		if vrt.Active() {
@@ -54,9 +74,17 @@ type RWMutex struct {
 	readers int
 	hbW     vrt.SyncVar // released by Unlock, acquired by Lock and RLock
 	hbR     vrt.SyncVar // released by RUnlock, acquired by Lock
+	ep      int64
+}
+
+func (m *RWMutex) reset() {
+	if fresh(&m.ep) {
+		m.wheld, m.readers, m.hbW, m.hbR = false, 0, vrt.SyncVar{}, vrt.SyncVar{}
+	}
 }
 
 func (m *RWMutex) Lock() {
+	m.reset()
 	p := uintptr(unsafe.Pointer(m))
 	vrt.Block("RWMutex.Lock", p, func() bool { return !m.wheld })
 	m.wheld = true
@@ -68,6 +96,7 @@ func (m *RWMutex) Lock() {
 }
 
 func (m *RWMutex) TryLock() bool {
+	m.reset()
 	vrt.PointOp("RWMutex.TryLock", uintptr(unsafe.Pointer(m)))
 	if m.wheld || m.readers > 0 {
 		return false
@@ -79,6 +108,7 @@ func (m *RWMutex) TryLock() bool {
 }
 
 func (m *RWMutex) Unlock() {
+	m.reset()
 	vrt.PointOp("RWMutex.Unlock", uintptr(unsafe.Pointer(m)))
 	if !m.wheld {
 		if vrt.Active() {
@@ -91,12 +121,14 @@ func (m *RWMutex) Unlock() {
 }
 
 func (m *RWMutex) RLock() {
+	m.reset()
 	vrt.Block("RWMutex.RLock", uintptr(unsafe.Pointer(m)), func() bool { return !m.wheld })
 	m.readers++
 	vrt.Acquire(&m.hbW)
 }
 
 func (m *RWMutex) TryRLock() bool {
+	m.reset()
 	vrt.PointOp("RWMutex.TryRLock", uintptr(unsafe.Pointer(m)))
 	if m.wheld {
 		return false
@@ -107,6 +139,7 @@ func (m *RWMutex) TryRLock() bool {
 }
 
 func (m *RWMutex) RUnlock() {
+	m.reset()
 	vrt.PointOp("RWMutex.RUnlock", uintptr(unsafe.Pointer(m)))
 	if m.readers == 0 {
 		if vrt.Active() {
@@ -130,9 +163,13 @@ func (m *RWMutex) RLocker() Locker { return (*rlocker)(m) }
 type WaitGroup struct {
 	n  int
 	hb vrt.SyncVar
+	ep int64
 }
 
 func (w *WaitGroup) Add(d int) {
+	if fresh(&w.ep) {
+		w.n, w.hb = 0, vrt.SyncVar{}
+	}
 	vrt.PointOp("WaitGroup.Add", uintptr(unsafe.Pointer(w)))
 	if d < 0 {
 		vrt.ReleaseMerge(&w.hb)
@@ -146,6 +183,9 @@ func (w *WaitGroup) Add(d int) {
 func (w *WaitGroup) Done() { w.Add(-1) }
 
 func (w *WaitGroup) Wait() {
+	if fresh(&w.ep) {
+		w.n, w.hb = 0, vrt.SyncVar{}
+	}
 	vrt.Block("WaitGroup.Wait", uintptr(unsafe.Pointer(w)), func() bool { return w.n == 0 })
 	vrt.Acquire(&w.hb)
 }
@@ -154,9 +194,13 @@ func (w *WaitGroup) Wait() {
 type Once struct {
 	m    Mutex
 	done bool
+	ep   int64
 }
 
 func (o *Once) Do(f func()) {
+	if fresh(&o.ep) {
+		o.done = false
+	}
 	o.m.Lock()
 	defer o.m.Unlock()
 	if !o.done {
@@ -172,6 +216,7 @@ func (o *Once) Do(f func()) {
 type Pool struct {
 	New   func() interface{}
 	items []poolItem
+	ep    int64
 }
 
 type poolItem struct {
@@ -183,6 +228,9 @@ func (p *Pool) Put(x interface{}) {
 	if x == nil {
 		return
 	}
+	if fresh(&p.ep) {
+		p.items = nil
+	}
 	vrt.PointOp("Pool.Put", uintptr(unsafe.Pointer(p)))
 	it := poolItem{v: x}
 	vrt.Release(&it.hb)
@@ -190,6 +238,9 @@ func (p *Pool) Put(x interface{}) {
 }
 
 func (p *Pool) Get() interface{} {
+	if fresh(&p.ep) {
+		p.items = nil
+	}
 	vrt.PointOp("Pool.Get", uintptr(unsafe.Pointer(p)))
 	n := len(p.items)
 	k := 0
